@@ -12,7 +12,8 @@ use std::fmt::Write as _;
 use serde_json::json;
 use tantivy::collector::Count;
 use tantivy::query::QueryParser;
-use tantivy::schema::{Schema, FAST, INDEXED, STORED, STRING, TEXT};
+use tantivy::schema::{IndexRecordOption, Schema, TextFieldIndexing, TextOptions, FAST, INDEXED, STORED, STRING, TEXT};
+use tantivy::tokenizer::{LowerCaser, SimpleTokenizer, StopWordFilter, TextAnalyzer};
 use tantivy::{doc, Index};
 use tantivy_query_grammar::{parse_query, parse_query_lenient, Delimiter, Occur, UserInputAst, UserInputBound, UserInputLeaf};
 use tvh::coqfmt as cf;
